@@ -57,7 +57,9 @@ pub fn strategy() -> impl Strategy<Value = Case> {
         // mostly 1-4 commands; sometimes 8-12 (more than any small internal batch of planning work)
         prop_oneof![5 => 1usize..=4, 1 => 8usize..=12],
         any::<u16>(),
-        0u8..4,
+        // mostly millisecond-scale run times; one case in sixteen has dependencies that take
+        // 3.3 s, during which nothing in their group finishes
+        prop_oneof![15 => 0u8..4, 1 => Just(4u8)],
         vec(0u64..80, 40),
     )
         .prop_map(|(raw, mode_k, picks, ncmd, split, timing_k, rnd)| {
@@ -96,7 +98,7 @@ pub fn strategy() -> impl Strategy<Value = Case> {
             };
             let lv = levels(&config);
             let maxl = lv.iter().copied().max().unwrap_or(0);
-            let timing = ["zero", "random", "deps-slower", "earlier-command-slower"][timing_k as usize];
+            let timing = ["zero", "random", "deps-slower", "earlier-command-slower", "dependencies-take-seconds"][timing_k as usize];
             let mut sleeps = vec![];
             let mut k = 0;
             for (ci, c) in names.iter().enumerate() {
@@ -109,6 +111,13 @@ pub fn strategy() -> impl Strategy<Value = Case> {
                         }
                         // dependencies (low level) sleep longer than their dependents
                         2 => 12 * (maxl - lv[ti]) as u64,
+                        4 => {
+                            if lv[ti] == 0 && ci == 0 {
+                                3300
+                            } else {
+                                0
+                            }
+                        }
                         _ => 15 * (ncmd - ci) as u64,
                     };
                     sleeps.push((c.clone(), t.path.clone(), ms));
@@ -373,10 +382,13 @@ pub fn check(case: &Case, w: usize) -> CheckResult {
         .map(|r| r.1.iter().flat_map(|g| g.keys().cloned()).collect())
         .unwrap_or_default();
     let mut slow_dep_pair = false;
+    // "depends on" includes dependencies that run through targets which are not part of the run
+    let adj = model::dep_adj(cfg);
+    let reach: Vec<std::collections::BTreeSet<usize>> = (0..cfg.targets.len()).map(|i| model::closure(&adj, &[i])).collect();
     for (place, c) in want_cmds.iter().enumerate() {
-        for t in cfg.targets.iter().filter(|t| in_run.contains(&t.path)) {
-            for u in cfg.targets.iter().filter(|u| in_run.contains(&u.path)) {
-                if !model::dep(t, u) {
+        for (ti, t) in cfg.targets.iter().enumerate().filter(|(_, t)| in_run.contains(&t.path)) {
+            for (ui, u) in cfg.targets.iter().enumerate().filter(|(_, u)| in_run.contains(&u.path)) {
+                if ti == ui || !reach[ti].contains(&ui) {
                     continue;
                 }
                 let (Some(tt), Some(tu)) = (tr.get(&(place, t.path.clone())), tr.get(&(place, u.path.clone()))) else {
